@@ -7,6 +7,8 @@ pub mod models;
 pub mod ordering;
 pub mod parser;
 pub mod validation;
+#[cfg(feature = "verif-hooks")]
+pub mod verif_map;
 
 pub use config::Config;
 pub use error::CgtError;
